@@ -24,8 +24,7 @@ var (
 
 func (ex *Exec) now() *Term {
 	v := ex.FreshIntRange("now", nowLo, nowHi)
-	ex.Inputs = append(ex.Inputs, v)
-	ex.InputLbl[v.ID] = v.S
+	ex.declareInput(v, v.S)
 	if ex.lastNow != nil {
 		ex.addPC(Le(ex.lastNow, v))
 	}
